@@ -104,9 +104,10 @@ impl QueryEngine {
 
     /// Register `metrics` for the given chunk paths, then execute the operation.
     ///
-    /// The registration lock is released before `operation` runs so that slow
-    /// queries do not block other concurrent requests from registering their
-    /// own chunk sets.
+    /// The registration lock is held while `operation` runs: the operation resolves the
+    /// `metrics` table by name, so another request must not re-register it in between.
+    /// Prefer [`Self::plan_with_metrics_table`] + [`Self::execute_plan`], which only
+    /// hold the lock while planning.
     pub async fn with_metrics_table<F, Fut, T>(
         &self,
         chunk_paths: &[String],
@@ -118,10 +119,32 @@ impl QueryEngine {
     {
         #[cfg(feature = "verif-hooks")]
         crate::verif_hooks::pause("query:before_register").await;
-        self.register_metrics_table_for_chunks(chunk_paths).await?;
+        let _guard = self.metrics_table_query_lock.lock().await;
+        self.register_metrics_table_for_chunks_locked(chunk_paths)
+            .await?;
         #[cfg(feature = "verif-hooks")]
         crate::verif_hooks::pause("query:after_register").await;
         operation().await
+    }
+
+    /// Register `metrics` for the given chunk paths and plan `sql` against that binding.
+    ///
+    /// Planning resolves the `metrics` table, so it has to happen before another request
+    /// can re-register the table for its own chunk set: the registration lock is held
+    /// until the plan exists and released before it is executed, so slow queries still
+    /// do not block each other.
+    pub async fn plan_with_metrics_table(
+        &self,
+        chunk_paths: &[String],
+        sql: &str,
+    ) -> Result<DataFrame> {
+        let plan = {
+            let _guard = self.metrics_table_query_lock.lock().await;
+            self.register_metrics_table_for_chunks_locked(chunk_paths)
+                .await?;
+            self.plan_read_only(sql).await?
+        };
+        Ok(plan)
     }
 
     /// Register the logical `metrics` table over a set of chunk paths.
@@ -271,6 +294,11 @@ impl QueryEngine {
     /// Execute a SQL query
     pub async fn execute(&self, sql: &str) -> Result<Vec<RecordBatch>> {
         let df = self.plan_read_only(sql).await?;
+        self.execute_plan(df).await
+    }
+
+    /// Execute an already planned query
+    pub async fn execute_plan(&self, df: DataFrame) -> Result<Vec<RecordBatch>> {
         let batches = df.collect().await?;
         Ok(batches)
     }
@@ -282,8 +310,19 @@ impl QueryEngine {
         tenant_id: &str,
         index_controller: Arc<crate::adaptive_index::AdaptiveIndexController>,
     ) -> Result<Vec<RecordBatch>> {
-        // 1. Analyze query for filter predicates
         let df = self.plan_read_only(sql).await?;
+        self.execute_plan_with_indexes(df, tenant_id, index_controller)
+            .await
+    }
+
+    /// Execute an already planned query with index awareness for adaptive indexing
+    pub async fn execute_plan_with_indexes(
+        &self,
+        df: DataFrame,
+        tenant_id: &str,
+        index_controller: Arc<crate::adaptive_index::AdaptiveIndexController>,
+    ) -> Result<Vec<RecordBatch>> {
+        // 1. Analyze query for filter predicates
         let plan = df.logical_plan();
         let filter_columns = Self::extract_filter_columns(plan);
 
